@@ -219,7 +219,7 @@ func planC10life(c *Ctx, run int64) *Plan {
 				op.S2 = "Other Customer"
 			}
 		case v < wCalc+wEdit+wSign:
-			op = Op{K: "sign", I: int64(r.IntN(3))}
+			op = Op{K: "sign", I: int64(r.IntN(3)), S3: Pick(r, []string{"", "", "", epCLI, epBulk, epHTTPBulk, epCobra})}
 		case v < wCalc+wEdit+wSign+wBadSign:
 			op = Op{K: "sign", I: int64(r.IntN(3)), S: Pick(r, []string{"pubonly", "empty"})}
 		case v < wCalc+wEdit+wSign+wBadSign+wUnsign:
@@ -240,7 +240,7 @@ func planC10life(c *Ctx, run int64) *Plan {
 				op.S = Pick(r, []string{"", "n1", "n2"})
 			}
 		case v < wCalc+wEdit+wSign+wBadSign+wUnsign+wHdr+wObs:
-			op = Op{K: Pick(r, []string{"validate", "validate", "verify"})}
+			op = Op{K: Pick(r, []string{"validate", "validate", "verify"}), I: int64(r.IntN(4))}
 			if op.K == "verify" {
 				op.S = Pick(r, []string{"nokeys", "key0", "key1", "key2", "all"})
 			}
@@ -252,7 +252,7 @@ func planC10life(c *Ctx, run int64) *Plan {
 		op.ID = i + 1
 		p.Ops = append(p.Ops, op)
 	}
-	p.Ops = append(p.Ops, Op{ID: n + 1, K: "validate"}, Op{ID: n + 2, K: "verify", S: "key0"})
+	p.Ops = append(p.Ops, Op{ID: n + 1, K: "validate", I: 1}, Op{ID: n + 2, K: "verify", S: "key0"})
 	return p
 }
 
@@ -343,6 +343,21 @@ func execLife(x *X, base string, ops []Op, or lifeOracles) {
 				note = "noop"
 			}
 		case "sign":
+			if op.S3 != "" && op.S == "" && !s.m.garbageSigs {
+				// the same request made through an entry point: parse, calculate, sign
+				hist := make([]string, 0, i+1)
+				for _, o := range ops[:i+1] {
+					hist = append(hist, o.K+":"+o.S+o.S3)
+				}
+				if got := signEntryOracle(x, op.S3, Marshal(s.env), int(op.I), int(op.I)*7, base+": "+strings.Join(hist, " → ")); got != nil {
+					s.env = got
+					s.markCalculated()
+					s.m.sigs = append(s.m.sigs, sigRec{key: int(op.I), snap: snapHeader(got.Head), real: true})
+					changed = true
+				}
+				note = "via:" + op.S3
+				break
+			}
 			before := len(s.env.Signatures)
 			wasSigned := s.modelSigned()
 			key := keyFor(op)
@@ -451,6 +466,10 @@ func execLife(x *X, base string, ops []Op, or lifeOracles) {
 				x.R.Nontrivial = true
 			}
 			note = got
+			if or.model && op.I%2 == 1 {
+				// the same question asked through the command line, bulk and HTTP paths
+				validateEntryOracle(x, Marshal(s.env), int(op.I)*5, base+" after "+fmt.Sprint(i)+" steps, model: "+s.abstract())
+			}
 		case "verify":
 			var keys []*dsig.PublicKey
 			var kidx []int
